@@ -45,3 +45,37 @@ prop(
     ],
     oracle="independent physical table in harness/core/src/c09.rs (SI definitions)",
 )
+
+prop(
+    "C10",
+    runs=[dict(crate="core", quick=["c10::q::"], thorough=["c10::q::", "c10::t::"])],
+    functions=["TerminationModel::test", "TerminationModel::terminate_search", "TerminationModel::explain_termination"],
+    bounds=("limit, iteration counter, tree size: every u64/usize value (iteration < u64::MAX); runtime limit: start instant any (u32 s, ns), "
+            "elapsed-before-call and every clock step any Duration <= 2^20 s, limit any Duration <= 2^21 s; check frequency is a per-instance "
+            "constant in {1,3} (quick) + {2,7,10} (thorough); combined models: shapes [iterations,size] and [iterations,[size,runtime f=1]]; unwind 4-5"),
+    assumptions=[
+        "std::time::Instant::now is stubbed: every read returns the previous reading plus an arbitrary non-negative step (time is a symbolic, monotone variable); Instant values are built by transmute from (i64 secs, u32 nanos), the Linux layout",
+        "std::fmt::format is stubbed to return a fixed non-empty string (messages are not the subject)",
+        "error mapping (test -> explain_termination) of a COMBINED model is outside the claim: the String join did not return in 1500 s even with concrete counters; for combined models the predicate terminate_search is decided, for leaf kinds the full test() mapping",
+        "frequency = 0 (division by zero) is a configuration error outside the property's domain",
+        "a symbolic check frequency (u64 % u64) did not finish in the probes: frequency is a concrete shape parameter",
+        "that run_a_star calls test(start, tree.len(), iterations) before every pop, and that a limited search returning Ok returns the unlimited result, are read from the loop and NOT decided (the loop could not be encoded)",
+    ],
+    out=["the search loop's use of the predicate", "identity of limited and unlimited results", "ksp sub-searches"],
+    oracle="the documented predicate written in the harness: iterations+1 > limit; size > limit; elapsed > limit on a check turn; combined = disjunction",
+)
+
+prop(
+    "C13",
+    runs=[dict(crate="core", quick=["c13::q::"], thorough=["c13::q::"])],
+    functions=["RouteSimilarityFunction::is_similar", "RouteSimilarityFunction::default", "KspTerminationCriteria::terminate_search", "KspQuery::new"],
+    bounds="similarity value and threshold: every f64 incl. NaN and infinities; k, solution size: every usize with k <= 2^31; factor <= 2^32; max: every u64",
+    assumptions=[
+        "both ksp drivers treat is_similar == true as 'reject the alternative' (read from single_via_paths_algorithm.rs and yens_algorithm.rs)",
+        "k * factor beyond 2^63 (overflow) is outside the claim",
+        "std::fmt::format stubbed in the KspQuery harness",
+    ],
+    out=["both ksp drivers (loops, hash maps, sub-searches): count, distinctness, ordering, loop-freeness and termination of the returned routes are NOT decided",
+         "cosine similarity value (sqrt, hash sets)"],
+    oracle="accept-all rejects nothing; threshold rule value >= threshold; stop rule never before k routes",
+)
